@@ -137,10 +137,9 @@ func checkC19(c *Ctx) {
 				}
 				for _, tv := range tested {
 					// "own" payload: of the receiver, or of the node handed to a visitor function (func(cur *Node))
-					isOwnNode := func(v ssa.Value) bool {
-						p, ok := deepStripLocal(v).(*ssa.Parameter)
-						return ok && p.Parent() == f && isNode(p.Type())
-					}
+					// whose payload: the receiver's, a visitor's node parameter, or a child looked up in the same
+					// function (the prune test) — every place that decides "this node holds a value"
+					isOwnNode := func(v ssa.Value) bool { return isNode(v.Type()) }
 					ts := c.nodeTests(tv, isNode, 2)
 					onlyOwnPayload := len(ts) > 0
 					for _, t := range ts {
@@ -192,6 +191,7 @@ func checkC19(c *Ctx) {
 		}
 	}
 	c.ruleFullTraversal("C19-R4", 2)
+	c.ruleValueRemovalKeepsChildren("C19-R5")
 }
 
 // nilGuardedMap: the MapUpdate through field address fa is dominated by an If on "(node).Children == nil" whose true branch stores a fresh map into the same field.
@@ -792,4 +792,47 @@ func isWildcardTest(bo *ssa.BinOp) bool {
 		}
 	}
 	return false
+}
+
+
+// ruleValueRemovalKeepsChildren implements C19-R5.
+func (c *Ctx) ruleValueRemovalKeepsChildren(id string) {
+	ru := c.R.Rule(id, "the trie code clears a node's value by assigning its payload field only: it never overwrites a whole node (no *n = Node{…}, no call of the generated Reset) — that would drop the node's children, i.e. every longer key stored below the one removed", "E11 who-may-call / shape rule on the hand-written Node methods (positive control: payload stores counted)", 2)
+	for _, pkg := range triePkgs {
+		_, payload, ok := c.nodeFields(pkg)
+		if !ru.Anchor(ok, pkg+".Node") {
+			continue
+		}
+		isNode := func(t types.Type) bool { return isNamed(derefT(t), pkg, "Node") }
+		n, bad := 0, ""
+		for _, f := range c.P.ModFuncs() {
+			if f.Package() == nil || f.Package().Pkg.Path() != c.P.Rel(pkg) || c.P.IsGenerated(f) {
+				continue
+			}
+			for _, b := range f.Blocks {
+				for _, in := range b.Instrs {
+					switch x := in.(type) {
+					case *ssa.Store:
+						if fa, ok := x.Addr.(*ssa.FieldAddr); ok && isNode(fa.X.Type()) && fieldNameOf(fa.X.Type(), fa.Field) == payload {
+							n++
+							c.R.Fn(c.fname(f))
+						}
+						// *n = Node{...} on an existing node (not the initialisation of a fresh one)
+						if isNode(x.Addr.Type()) {
+							if _, isStructVal := x.Val.Type().Underlying().(*types.Struct); isStructVal {
+								if _, fresh := core.Strip(x.Addr).(*ssa.Alloc); !fresh {
+									bad = "a whole node is overwritten at " + c.whereI(x) + ": its children are dropped together with its value"
+								}
+							}
+						}
+					case *ssa.Call:
+						if g := x.Call.StaticCallee(); g != nil && g.Name() == "Reset" && g.Signature.Recv() != nil && isNode(g.Signature.Recv().Type()) && c.P.IsGenerated(g) {
+							bad = "the generated Reset is called on a trie node at " + c.whereI(x) + ": it zeroes the whole node, children included — removing a key drops every longer key stored below it"
+						}
+					}
+				}
+			}
+		}
+		ru.Check(bad == "" && n > 0, "node overwrites in package "+pkg, "-", fmt.Sprintf("%d payload assignment(s), no whole-node overwrite", n), bad+map[bool]string{true: "", false: "no assignment to the payload field found"}[n > 0 || bad != ""])
+	}
 }
